@@ -33,12 +33,12 @@ SETTINGS = [dict(integer_positions=True, comm="prop"), dict(integer_positions=Fa
 
 def plan(tier):
     q = tier == "quick"
-    return [dict(unit="iso", n=150 if q else 4000, builds=["py", "so"], case_timeout=300),
-            dict(unit="hashseed", n=10 if q else 160, builds=["py", "so"], case_timeout=900, chunk=1)]
+    return [dict(unit="iso", n=100 if q else 4000, builds=["py", "so"], case_timeout=300),
+            dict(unit="hashseed", n=6 if q else 160, builds=["py", "so"], case_timeout=900, chunk=1)]
 
 
 def floors(tier):
-    return {"min_decided": 100, "counters": {"orders_compared": 300, "input_digests": 1000, "rerun_checks": 80, "hashseed_runs": 300, "hashseed_cases": 80},
+    return {"min_decided": 100, "counters": {"orders_compared": 300, "input_digests": 1000, "rerun_checks": 80, "hashseed_runs": 300, "hashseed_cases": 70},
             "max_undecided_frac": 0.35}
 
 
